@@ -51,8 +51,16 @@ func expandKey(k string) string {
 	return k
 }
 
+// devPatterns: VERIF_WASM=1 loads the js/wasm variant of the root package (developer commands).
+func devPatterns() ([]string, []string) {
+	if os.Getenv("VERIF_WASM") != "" {
+		return []string{"."}, []string{"GOOS=js", "GOARCH=wasm"}
+	}
+	return []string{".", "./terminfo", "./views"}, nil
+}
+
 func cmdLoops(args []string) int {
-	e, err := LoadEngine([]string{".", "./terminfo", "./views"}, nil)
+	e, err := LoadEngine(devPatterns())
 	if err != nil {
 		fmt.Println(err)
 		return 3
@@ -78,7 +86,7 @@ func cmdVerify(args []string) int {
 	lem := fs.Bool("lemmas", false, "verify all lemmas too")
 	verbose := fs.Bool("v", false, "show trivial safety obligations")
 	fs.Parse(args)
-	e, err := LoadEngine([]string{".", "./terminfo", "./views"}, nil)
+	e, err := LoadEngine(devPatterns())
 	if err != nil {
 		fmt.Println("load error:", err)
 		return 3
@@ -111,10 +119,16 @@ func cmdVerify(args []string) int {
 				continue
 			}
 			fmt.Printf("  %s%-9s %-70s x%d %s %.2fs %s\n", mark, g.Status, g.Name, len(g.Instances), g.Solver, g.Secs, g.Src)
+			if os.Getenv("GOVC_TRIED") != "" && g.Secs > 5 {
+				fmt.Printf("      tried: %s\n", strings.Join(g.Tried, " "))
+			}
 			if g.Status == "failed" {
 				for _, k := range sortedKeys(g.Model) {
 					if strings.HasPrefix(k, "havoc.") || strings.HasPrefix(k, "ret") {
 						continue
+					}
+					if strings.HasPrefix(k, "(select") && !*verbose {
+						continue // array contents only with -v
 					}
 					fmt.Printf("        %s = %s\n", k, g.Model[k])
 				}
